@@ -627,7 +627,13 @@ func run[T comparable](c Case, k kit[T]) pbt.Outcome {
 
 // ---------------------------------------------------------------- generators
 
-var histKinds = []string{"add", "add", "add", "add", "add", "add", "rem", "rem", "rem", "rem", "rem", "has", "has", "has", "has", "len", "slice", "range", "string"}
+// Len/Slice/Range/String promote the dirty map (which also drops expunged entries), so a second, "quiet"
+// profile uses them rarely: there nil and expunged entries survive until the operation under test.
+var histKinds = [][]string{
+	{"add", "add", "add", "add", "add", "add", "rem", "rem", "rem", "rem", "rem", "has", "has", "has", "has", "len", "slice", "range", "string"},
+	{"add", "rem", "has", "add", "rem", "add", "rem", "has", "add", "rem", "add", "rem", "has", "add", "rem", "add", "rem", "has", "add", "rem",
+		"add", "rem", "has", "add", "rem", "add", "rem", "has", "add", "rem", "len", "slice", "range", "string"},
+}
 
 func genOperand(t *rapid.T, name string) Operand {
 	o := Operand{Impl: rapid.SampledFrom([]string{"maps", "sync2", "sync2"}).Draw(t, name+"-impl")}
@@ -635,17 +641,29 @@ func genOperand(t *rapid.T, name string) Operand {
 	if o.Ctor != "zero" {
 		o.Init = rapid.SliceOfN(rapid.IntRange(0, 7), 0, 12).Draw(t, name+"-init")
 	}
-	hop := rapid.Custom(func(t *rapid.T) HOp {
-		k := rapid.SampledFrom(histKinds).Draw(t, "k")
-		switch k {
-		case "len", "slice", "string":
-			return HOp{K: k}
-		case "range":
-			return HOp{K: k, V: rapid.IntRange(0, 4).Draw(t, "stop")}
-		}
-		return HOp{K: k, V: rapid.IntRange(0, 7).Draw(t, "v")}
-	})
-	o.Hist = pbt.OpsOf(t, hop, []int{0, 2, 5, 9}, name+"-hist")
+	hopOf := func(kinds []string) *rapid.Generator[HOp] {
+		return rapid.Custom(func(t *rapid.T) HOp {
+			k := rapid.SampledFrom(kinds).Draw(t, "k")
+			switch k {
+			case "len", "slice", "string":
+				return HOp{K: k}
+			case "range":
+				return HOp{K: k, V: rapid.IntRange(0, 4).Draw(t, "stop")}
+			}
+			return HOp{K: k, V: rapid.IntRange(0, 7).Draw(t, "v")}
+		})
+	}
+	profile := rapid.IntRange(0, 2).Draw(t, name+"-profile")
+	if profile < 2 {
+		o.Hist = pbt.OpsOf(t, hopOf(histKinds[profile]), []int{0, 2, 5, 9}, name+"-hist")
+		return o
+	}
+	// staged: grow, observe once (promotes a concurrent set), shrink, grow again — the shape that leaves nil
+	// entries in a clean read map and then expunges them when the dirty map is re-created
+	o.Hist = pbt.OpsOf(t, hopOf([]string{"add", "add", "add", "add", "has", "rem"}), []int{1, 3, 5}, name+"-grow")
+	o.Hist = append(o.Hist, rapid.SliceOfN(hopOf([]string{"len", "slice", "range", "string"}), 0, 1).Draw(t, name+"-observe")...)
+	o.Hist = append(o.Hist, pbt.OpsOf(t, hopOf([]string{"rem", "rem", "rem", "has", "add"}), []int{0, 2, 4}, name+"-shrink")...)
+	o.Hist = append(o.Hist, rapid.SliceOfN(hopOf([]string{"add", "add", "add", "has", "rem"}), 0, 5).Draw(t, name+"-regrow")...)
 	return o
 }
 
@@ -657,7 +675,7 @@ var opKinds = []string{
 }
 
 var specRand = pbt.Register(&pbt.Spec[Case]{
-	Property: "C03", Name: "C03.rand", Rule: "rapid: histories of 0..24 steps per operand, 8% same-object operands, 0..12 post-mutations; " + rule,
+	Property: "C03", Name: "C03.rand", Rule: "rapid: histories of 0..40 steps per operand (three profiles: mixed, few observers, staged grow/observe/shrink/regrow), 8% same-object operands, 0..12 post-mutations; " + rule,
 	Gen: func(t *rapid.T) Case {
 		c := Case{Elem: rapid.IntRange(0, 1).Draw(t, "elem")}
 		c.A = genOperand(t, "a")
